@@ -78,6 +78,8 @@ PLAN = {   # which properties' quick checks are run against which seeded change
     "C07-a": ["C07"], "C08-a": ["C08"], "C09-a": ["C09"], "C10-a": ["C10"], "C11-a": ["C11"], "C12-a": ["C12"], "C13-a": ["C13"],
     "C14-a": ["C14"], "C15-a": ["C15"], "C16-a": ["C16", "C03"], "C17-a": ["C17"], "C18-a": ["C18"], "C19-a": ["C19"],
     "C20-a": ["C20", "C08"],
+    "C01-b": ["C01"], "C02-b": ["C02"], "C03-b": ["C03"], "C04-b": ["C04"], "C05-b": ["C05"], "C07-b": ["C07"], "C08-b": ["C08"],
+    "C09-b": ["C09"], "C10-b": ["C10"], "C16-b": ["C16"], "C18-b": ["C18"], "C20-b": ["C20"],
 }
 
 
